@@ -181,20 +181,18 @@ func rulePreorder(p *Prog, r *Report) {
 		}
 		sort.Strings(ids)
 		for _, id := range ids {
-			seen := map[string]bool{}
-			for _, pr := range res.loopIssues[id] {
-				if strings.HasPrefix(pr, "out of fragment") {
-					continue
-				}
-				law := pr
-				if i := strings.Index(pr, ":"); i > 0 {
-					law = pr[:i]
-				}
-				if seen[law] {
-					continue
-				}
-				seen[law] = true
-				r.Bad("R-PREORDER", fk+": loop "+shortLoopID(id)+" "+law, pos, "the position-wise relation of the zip loop is not a total preorder (so its lexicographic extension is not): "+pr)
+			s := res.loopSums[id]
+			if s == nil || s.lawSig == nil {
+				continue
+			}
+			var laws []string
+			for law := range s.lawSig {
+				laws = append(laws, law)
+			}
+			sort.Strings(laws)
+			for _, law := range laws {
+				r.Bad("R-PREORDER", fmt.Sprintf("%s: loop %s %s {%s}", fk, shortLoopID(id), law, strings.Join(keysOf(s.lawSig[law]), ",")), pos,
+					fmt.Sprintf("the position-wise relation of the zip loop is not a total preorder (so its lexicographic extension is not): %s in %d abstract position worlds, e.g. %s", law, s.lawN[law], s.lawFirst[law]))
 			}
 		}
 		for _, id := range res.loopsOK {
